@@ -387,6 +387,16 @@ Section Applier.
     unfold spec_state, spec_doc; cbn. rewrite Ht. auto.
   Qed.
 
+
+  Lemma degraded_update_keeps_document a rm rm' doc :
+    a_type a = TUpdate -> rm_doc rm = Some doc -> compose doc (v_patches (a_view a)) = None ->
+    apply a rm = Some rm' -> rm_doc rm' = Some doc.
+  Proof.
+    intros Ht Hd Hc. rewrite apply_refines_spec. unfold spec_apply.
+    destruct (accepted a rm); [|discriminate]. intros E; injection E as <-.
+    unfold spec_state, spec_doc; cbn. rewrite Ht, Hd, Hc. destruct (in_win _ _); reflexivity.
+  Qed.
+
   (* ---- C02: no state change without authorisation ---- *)
 
   Theorem accept_implies_authorised a rm rm' :
@@ -405,6 +415,25 @@ Section Applier.
     destruct (accepted a rm) eqn:Acc; [|discriminate]. intros _.
     unfold accepted in Acc. destruct (a_type a); try discriminate;
       repeat (apply andb_prop in Acc; destruct Acc as [? Acc]); auto 10.
+  Qed.
+
+
+  Lemma unauthorised_changes_nothing a rm :
+    (a_type a = TUpdate \/ a_type a = TRecover \/ a_type a = TDeactivate) ->
+    (v_parse_ok (a_view a) = false \/ v_signed_ok (a_view a) = false \/ v_sig_ok (a_view a) = false) ->
+    step rm a = rm.
+  Proof.
+    intros Ht Hv. unfold step. rewrite apply_refines_spec. unfold spec_apply.
+    assert (E : accepted a rm = false).
+    { unfold accepted. destruct Ht as [Ht|[Ht|Ht]]; rewrite Ht;
+        destruct (rm_doc rm); cbn; try reflexivity;
+        destruct Hv as [Hv|[Hv|Hv]]; rewrite Hv; cbn;
+        rewrite ?Bool.andb_false_r; try reflexivity;
+        destruct (v_parse_ok (a_view a)); cbn; try reflexivity;
+        destruct (v_signed_ok (a_view a)); cbn; try reflexivity;
+        destruct (v_delta_hash_ok (a_view a)); cbn; try reflexivity;
+        destruct (v_suffix_ok (a_view a)); cbn; reflexivity. }
+    now rewrite E.
   Qed.
 
   (* Document content (beyond the empty document) comes from the delta only when the delta is
